@@ -16,14 +16,17 @@
 (*   ZStep(Z, c)  successor state and the lines the hooks record for it     *)
 (*                (fired / ev / act / exit)                                 *)
 (*                                                                         *)
-(* Aggregate base delays and the pps bottleneck: WHEN the code pushes an    *)
-(* aggregate delay and by how much (delay.rs heuristics with 1 ms / 100 ms  *)
-(* windows) and how much extra delay the bottleneck adds to a packet are    *)
-(* inputs of a step (c.agg, c.extra: none / 0 in model checking, the logged *)
-(* amounts in trace validation); what happens to them afterwards - the two  *)
+(* Aggregate base delays and the pps bottleneck. With cf.predict the model  *)
+(* computes WHEN the code pushes an aggregate delay and by how much         *)
+(* (delay.rs: AggExpire - blocking expiry with a buffered packet,            *)
+(* AggReplace - bypass-replace padding, AggPps - a packet delayed by the     *)
+(* bottleneck; network.rs: PpsExtra - the one-second window count against    *)
+(* the packets-per-second limit, DefaultPps - parse_trace's 10 x busiest     *)
+(* 100 ms window). Without cf.predict they are inputs of a step (c.agg,      *)
+(* c.extra: none / 0). What happens to a pushed delay afterwards - the two  *)
 (* pending entries per push and their due times, popping them before        *)
 (* anything else that is due, shifting the base trace of that side - is     *)
-(* modelled. The order among same-time, same-priority candidates is         *)
+(* modelled in both modes. The order among same-time, same-priority candidates is         *)
 (* nondeterministic. `Variant`: "F7" bypass     *)
 (* flag overwritten, "F8" zero-duration UpdateTimer dropped; zero-duration  *)
 (* blocking (F6, known finding) is modelled as coded.                       *)
@@ -56,9 +59,21 @@ StartOf(tr, delay) ==
   MinOf({BaseOf(tr, 1, delay)[i] : i \in 1..Len(BaseOf(tr, 1, delay))}
         \cup {BaseOf(tr, 2, delay)[i] : i \in 1..Len(BaseOf(tr, 2, delay))})
 
-\* cf = [delay, nc, ns, cont, maxEvents]
+\* parse_trace: the default packets-per-second limit is ten times the busiest 100 ms window of
+\* the trace's sent lines or received lines (times as written in the trace, which is sorted)
+DefaultPps(tr) ==
+  LET cnt(i) == Cardinality({j \in 1..i : tr[j].s = tr[i].s /\ tr[i].t - tr[j].t <= 100000})
+      m == IF Len(tr) = 0 THEN 0 ELSE CHOOSE x \in {cnt(i) : i \in 1..Len(tr)} : \A y \in {cnt(i) : i \in 1..Len(tr)} : y <= x
+  IN 10 * m
+\* the delay added per packet above the limit: one second divided by the limit, in nano-seconds
+\* as the code computes it; -1 when that is not a whole number of micro-seconds
+AddUs(pps) == IF pps <= 0 THEN -1
+              ELSE LET ns == 1000000000 \div pps IN IF ns % 1000 = 0 THEN ns \div 1000 ELSE -1
+
+\* cf = [delay, nc, ns, cont, maxEvents] and optionally [predict, pps]
+Predict(Z) == "predict" \in DOMAIN Z.cf /\ Z.cf.predict
 ZInit(tr, cf, budget) ==
-  [cf |-> cf, now |-> StartOf(tr, cf.delay),
+  [cf |-> cf, win |-> <<<<>>, <<>>>>, now |-> StartOf(tr, cf.delay),
    sd |-> <<InitSide(BaseOf(tr, 1, cf.delay), cf.nc), InitSide(BaseOf(tr, 2, cf.delay), cf.ns)>>,
    left |-> budget, nev |-> 0, nid |-> 1, done |-> FALSE,
    agg |-> <<0, 0>>,          \* aggregate base delay per side
@@ -174,6 +189,42 @@ Apply(S, f, i, t, acc) ==
                      [acc EXCEPT !.acts = Append(@, <<i - 1, a>>),
                                  !.begins = IF sets THEN Append(@, i - 1) ELSE @])
 
+---------------------------------------------------------------------------
+\* delay.rs and network.rs: when an aggregate delay is pushed and how large it is (-1: none)
+MaxOf(S) == CHOOSE x \in S : \A y \in S : y <= x
+SatSub(a, b) == IF a > b THEN a - b ELSE 0
+TSof(Z, s) == {x \in Z.sd[s].q : x.e = "TunnelSent"}
+\* the next base packet of side s (shifted by the aggregate delay of side a) lies within 1 ms of ref
+BaseClose(Z, s, ref, a) == Z.sd[s].base # <<>> /\ SatSub(Z.sd[s].base[1] + Z.agg[a], ref) <= 1000
+\* agg_delay_on_blocking_expire: blocking of side s ends at T while packets are buffered
+AggExpire(Z, s, T) ==
+  LET ts == TSof(Z, s) IN
+  IF ts = {} THEN -1
+  ELSE LET ht == MinOf({x.t : x \in ts})
+           tail == IF Cardinality(ts) > 2 THEN MaxOf({x.t : x \in {y \in ts : y.t - ht <= 1000}}) ELSE ht
+       IN IF ~(ht < T) \/ T = tail \/ BaseClose(Z, s, ht, s) THEN -1 ELSE SatSub(T, tail)
+\* agg_delay_on_padding_bypass_replace: the buffered normal packet h leaves with a bypass padding at t
+AggReplace(Z, s, h, t) ==
+  IF \E x \in TSof(Z, s) \ {h} : SatSub(x.t, h.t) <= 100000 THEN -1
+  ELSE IF BaseClose(Z, s, h.t, s) THEN -1
+  ELSE SatSub(t, h.t)
+\* NetworkBottleneck::sample: the packets of side s within one second, against the limit
+WinAfter(Z, s, t) == SelectSeq(Append(Z.win[s], t), LAMBDA x : t - x <= 1000000)
+PpsExtra(Z, s, t) ==
+  LET k == Len(WinAfter(Z, s, t)) - Z.cf.pps
+      a == AddUs(Z.cf.pps)
+  IN IF Z.cf.pps > 0 /\ k > 0 /\ a > 0 THEN a * k ELSE 0
+\* should_delayed_packet_prop_agg_delay (as coded: the base packet is shifted by the CLIENT's
+\* aggregate delay on either side)
+AggPps(Z, s, t, extra) ==
+  IF extra <= 0 THEN -1
+  ELSE IF \E x \in TSof(Z, s) : SatSub(x.t, t) <= 100000 THEN -1
+  ELSE IF BaseClose(Z, s, t, 1) THEN -1
+  ELSE extra
+\* the buffered packets a replacing padding of side s may leave with (earliest first)
+ReplHead(Z, s) == LET cands == {x \in Z.sd[s].q : x.e = "TunnelSent" /\ (~x.bp \/ ~Z.sd[s].byp)}
+                  IN IF cands = {} THEN {} ELSE {x \in cands : \A y \in cands : x.t <= y.t}
+
 \* main loop body: event e picked on side s at time t, queues already updated in Z0
 \* the two pending entries of one push_aggregate_delay(B) at time T on side s
 Pushed(Z0, s, T, B) ==
@@ -188,8 +239,7 @@ Process(Z0, s, e, t, f, agg, extra, aggFirst) ==
       Sd0 == Z0.sd
       nid == Z0.nid
       \* sim_network_stack
-      head == LET cands == {x \in Sd0[s].q : x.e = "TunnelSent" /\ (~x.bp \/ ~Sd0[s].byp)}
-              IN IF cands = {} THEN {} ELSE {x \in cands : \A y \in cands : x.t <= y.t}
+      head == ReplHead(Z0, s)
       Sd1 ==
         CASE e.e = "NormalSent" ->
                [Sd0 EXCEPT ![s].q = @ \cup {Ev(nid, "TunnelSent", -1, t, FALSE, FALSE, FALSE)}]
@@ -224,6 +274,7 @@ Process(Z0, s, e, t, f, agg, extra, aggFirst) ==
       stop == ~Z0.cf.cont /\ quiet(Sd2[1]) /\ quiet(Sd2[2])
   IN [Z |-> [Z0 EXCEPT !.sd = Sd2, !.left = @ - used, !.done = stop, !.now = t,
                        !.nev = @ + 1, !.nid = @ + 40,
+                       !.win = IF Predict(Z0) /\ e.e = "TunnelSent" THEN [@ EXCEPT ![s] = WinAfter(Z0, s, t)] ELSE @,
                        !.pending = @ \cup Pushed(Z0, s, t, agg)],
       lines |-> IF stop THEN Append(lines, ExitLine("all_normal_processed", Z0.nev + 1)) ELSE lines]
 
@@ -261,10 +312,19 @@ ZStep(Z, c) ==
     [] c.kind = "blk" ->
          LET t == AtLeastNow(Z, BT(Z))
              Z0 == [Z EXCEPT !.sd[c.s].blk = [on |-> FALSE, until |-> 0]]
-         IN Process(Z0, c.s, Ev(0, "BlockingEnd", -1, t, FALSE, FALSE, FALSE), t, c.f, c.agg, 0, TRUE)
+             agg == IF Predict(Z) THEN AggExpire(Z, c.s, t) ELSE c.agg
+         IN Process(Z0, c.s, Ev(0, "BlockingEnd", -1, t, FALSE, FALSE, FALSE), t, c.f, agg, 0, TRUE)
     [] c.kind = "queue" ->
          LET t == QT(Z)
              Z0 == IF c.ev.id = 0 THEN [Z EXCEPT !.sd[c.s].base = Tail(@)]
                    ELSE [Z EXCEPT !.sd[c.s].q = @ \ {c.ev}]
-         IN Process(Z0, c.s, c.ev, t, c.f, c.agg, c.extra, FALSE)
+             hd == ReplHead(Z0, c.s)
+             repl == c.ev.e = "PaddingSent" /\ c.ev.rp /\ c.ev.bp /\ (\E x \in hd : ~x.p)
+             extra == IF ~Predict(Z) THEN c.extra
+                      ELSE IF c.ev.e = "TunnelSent" THEN PpsExtra(Z0, c.s, t) ELSE 0
+             agg == IF ~Predict(Z) THEN c.agg
+                    ELSE IF repl THEN AggReplace(Z0, c.s, CHOOSE x \in hd : ~x.p, t)
+                    ELSE IF c.ev.e = "TunnelSent" THEN AggPps(Z0, c.s, t, extra)
+                    ELSE -1
+         IN Process(Z0, c.s, c.ev, t, c.f, agg, extra, FALSE)
 =============================================================================
